@@ -450,7 +450,7 @@ func (c Cell) CapBound() Cap {
 	for k := 0; k < 4; k++ {
 		cap = cap.AddPoint(c.Vertex(k))
 	}
-	return cap
+	return cap.roundedUp()
 }
 
 // ContainsPoint reports whether this cell contains the given point. Note that
